@@ -146,3 +146,21 @@ fn vec_shims_match_std() {
         for b in &vs { assert_eq!(vec_eq(a, b), a == b); }
     }
 }
+
+#[test]
+fn vec_worklist_shims_match_std() {
+    let vs: Vec<Vec<i32>> = vec![vec![], vec![1], vec![1, 2, 3], vec![1, 2, 4, 9]];
+    for a in &vs {
+        for b in &vs {
+            let (mut x, mut y) = (a.clone(), a.clone());
+            vec_extend(&mut x, b.iter().copied()); y.extend(b.iter().copied()); assert_eq!(x, y);
+        }
+        assert_eq!(vec_is_empty(a), a.is_empty());
+        assert_eq!(vec_first(a), a.first()); assert_eq!(vec_last(a), a.last());
+        for k in 0..6 { assert_eq!(vec_contains(a, &k), a.contains(&k)); let (mut x, mut y) = (a.clone(), a.clone()); vec_truncate(&mut x, k as usize); y.truncate(k as usize); assert_eq!(x, y); }
+        let (mut x, mut y) = (a.clone(), a.clone()); vec_reverse(&mut x); y.reverse(); assert_eq!(x, y);
+        assert_eq!(vec_into_iter(a.clone()).collect::<Vec<_>>(), a.clone().into_iter().collect::<Vec<_>>());
+        assert_eq!(vec_into_iter(a.clone()).rev().collect::<Vec<_>>(), a.clone().into_iter().rev().collect::<Vec<_>>());
+        assert_eq!(iter_collect_vec(a.iter().copied()), a.iter().copied().collect::<Vec<_>>());
+    }
+}
